@@ -116,15 +116,26 @@ func ParsePredef(s string) (topics.PredefinedTopics, error) {
 			if len(in) != 2 {
 				return nil, fmt.Errorf("bad predef entry %q", e)
 			}
-			id, err := strconv.ParseUint(in[0], 10, 16)
-			if err != nil {
-				return nil, err
-			}
 			n, err := UnHex(in[1])
 			if err != nil {
 				return nil, err
 			}
-			t[string(c)][uint16(id)] = string(n)
+			// "lo-hi=name": the same name for a whole range of IDs
+			lo, hi, isRange := strings.Cut(in[0], "-")
+			if !isRange {
+				hi = lo
+			}
+			a, err := strconv.ParseUint(lo, 10, 16)
+			if err != nil {
+				return nil, err
+			}
+			b, err := strconv.ParseUint(hi, 10, 16)
+			if err != nil {
+				return nil, err
+			}
+			for id := a; id <= b; id++ {
+				t[string(c)][uint16(id)] = string(n)
+			}
 		}
 	}
 	return t, nil
